@@ -373,6 +373,15 @@ pub fn gen_graph(rng: &mut Rng, n: usize, decl_mode: DeclMode) -> GraphSpec {
                 i += 1;
             }
         }
+        if rng.chance(1, 3) {
+            // the same (possibly new) pair twice inside one batch call
+            let c = calls[rng.below(calls.len())].clone();
+            let id = next_id;
+            next_id += 1;
+            let pos = rng.below(calls.len() + 1);
+            calls.insert(pos, EdgeCall { batch: id, ..c.clone() });
+            calls.insert(pos, EdgeCall { batch: id, ..c });
+        }
         if rng.chance(1, 3) && n >= 2 {
             // a batch that restates an accepted edge and then closes a cycle
             let c = calls[rng.below(calls.len())].clone();
@@ -686,6 +695,8 @@ pub fn gen_run(rng: &mut Rng, n: usize, k: &RunKnobs) -> RunSpec {
         // tokio's cooperative budget only bites when many operations happen in one
         // poll: mostly wide graphs
         coop: coop_flag,
+        rev_calls: if reverse { [1, 1, 1, 2, 3][rng.below(5)] } else { 1 },
+        intr_hooks: strategy.has_channel() && rng.chance(1, 4),
         signals_anytime: signals > 0 && api.has_limit() && rng.chance(1, 3),
         leave_refs: false,
         carried_slots: 0,
